@@ -2,6 +2,7 @@
 //! Usage: vmcheck <property-id> [--tier quick|thorough] [--replay <file>] [--part <name>]
 
 mod arena;
+mod crash;
 mod explore;
 mod interpose;
 mod layouts;
@@ -67,5 +68,6 @@ pub fn new_ctx(prop: &str, tier: Tier, level: &'static str, replay: &Option<Stri
             }
         }
     }
+    crash::install(&ctx);
     ctx
 }
